@@ -27,3 +27,88 @@ ssize_t getrandom(void *buf, size_t len, unsigned int flags) {
     }
     return (ssize_t)len;
 }
+
+
+/* ---- I/O fault injection (all off unless S4SIM_IOFAULT is set) -----------------------------------
+ * S4SIM_IOFAULT = "key=value;key=value;..." with
+ *   sw=<seed>        short writes on stdout: a write of n>1 bytes is cut to 1..n-1 bytes in 3 of 4 calls
+ *                    (a pure function of seed and the call number)
+ *   epipe=<N>        stdout accepts N bytes in total, then every write fails with EPIPE (the reader went away)
+ *   enospc=<N>       files under $TMPDIR accept N bytes in total, then every write fails with ENOSPC (disk full)
+ * Counting is per process; with the baton scheduler one thread runs at a time, so the byte at which a
+ * fault lands is a function of the plan. Writes to other descriptors are passed through untouched. */
+#include <errno.h>
+#include <stdio.h>
+#include <sys/uio.h>
+
+static int io_init_done;
+static long long io_sw_seed = -1, io_epipe = -1, io_enospc = -1;
+static unsigned long long io_sw_calls, io_out_bytes, io_tmp_bytes;
+static char io_tmpdir[512];
+
+static void io_init(void) {
+    if (io_init_done) return;
+    const char *e = getenv("S4SIM_IOFAULT");
+    if (e) {
+        const char *p;
+        if ((p = strstr(e, "sw="))) io_sw_seed = strtoll(p + 3, 0, 10);
+        if ((p = strstr(e, "epipe="))) io_epipe = strtoll(p + 6, 0, 10);
+        if ((p = strstr(e, "enospc="))) io_enospc = strtoll(p + 7, 0, 10);
+        const char *t = getenv("TMPDIR");
+        if (t) { strncpy(io_tmpdir, t, sizeof io_tmpdir - 1); }
+    }
+    io_init_done = 1;
+}
+
+static int io_is_tmp(int fd) {
+    char link[64], path[600];
+    if (!io_tmpdir[0]) return 0;
+    snprintf(link, sizeof link, "/proc/self/fd/%d", fd);
+    ssize_t r = readlink(link, path, sizeof path - 1);
+    if (r <= 0) return 0;
+    path[r] = 0;
+    size_t n = strlen(io_tmpdir);
+    return strncmp(path, io_tmpdir, n) == 0 && path[n] == '/';
+}
+
+static uint64_t io_mix(uint64_t z) {
+    z = (z ^ (z >> 30)) * 0xBF58476D1CE4E5B9ULL;
+    z = (z ^ (z >> 27)) * 0x94D049BB133111EBULL;
+    return z ^ (z >> 31);
+}
+
+ssize_t write(int fd, const void *buf, size_t n) {
+    io_init();
+    if (fd == 1 && (io_sw_seed >= 0 || io_epipe >= 0)) {
+        if (io_epipe >= 0) {
+            if (io_out_bytes >= (unsigned long long)io_epipe && n > 0) { errno = EPIPE; return -1; }
+            if (n > (unsigned long long)io_epipe - io_out_bytes) n = (size_t)((unsigned long long)io_epipe - io_out_bytes);
+        }
+        if (io_sw_seed >= 0 && n > 1) {
+            uint64_t r = io_mix((uint64_t)io_sw_seed + 0x9E3779B97F4A7C15ULL * (++io_sw_calls));
+            if ((r & 3) != 0) n = 1 + (size_t)((r >> 8) % (n - 1));
+        }
+        ssize_t w = syscall(SYS_write, fd, buf, n);
+        if (w > 0) io_out_bytes += (unsigned long long)w;
+        return w;
+    }
+    if (fd > 2 && io_enospc >= 0 && io_is_tmp(fd)) {
+        if (io_tmp_bytes >= (unsigned long long)io_enospc && n > 0) { errno = ENOSPC; return -1; }
+        if (n > (unsigned long long)io_enospc - io_tmp_bytes) n = (size_t)((unsigned long long)io_enospc - io_tmp_bytes);
+        ssize_t w = syscall(SYS_write, fd, buf, n);
+        if (w > 0) io_tmp_bytes += (unsigned long long)w;
+        return w;
+    }
+    return syscall(SYS_write, fd, buf, n);
+}
+
+ssize_t writev(int fd, const struct iovec *iov, int cnt) {
+    io_init();
+    if ((fd == 1 && (io_sw_seed >= 0 || io_epipe >= 0)) || (fd > 2 && io_enospc >= 0 && io_is_tmp(fd))) {
+        /* a vectored write is allowed to transfer only part of its buffers: hand over the first non-empty one */
+        for (int i = 0; i < cnt; i++)
+            if (iov[i].iov_len) return write(fd, iov[i].iov_base, iov[i].iov_len);
+        return 0;
+    }
+    return syscall(SYS_writev, fd, iov, cnt);
+}
